@@ -353,4 +353,143 @@ theorem C12_to_regex_any_alphabet_fails : ¬ C12_to_regex_any_alphabet Nat id :=
   cases hc'
   exact hneq heq
 
+/-! ## `IsLit` is exactly the boundary
+
+For every character `c` the one-state DFA over `{c}` accepting `c*` is a valid source with a
+non-empty language.  The end-to-end property holds for it iff `c` is `IsLit`: for the thirteen
+reserved characters `c*` does not parse / is refused (`InvalidRegexError`, `InvalidSymbolError`) or,
+for `.`, compiles to `{ε}`; for any other white-space character `from_dfa` raises `LexerError`. -/
+
+/-- The end-to-end property (inferred alphabet) for one source DFA with `Nat` states. -/
+def C12_holds_for (d : DFA Nat Char) : Prop :=
+  ∃ g, fromDFA simpleRxValid id d = .ok g ∧
+    ∀ (ord : Nat → List Nat → List Nat), (∀ k l x, x ∈ ord k l ↔ x ∈ l) →
+      ∃ s L, toRegex g ord = .ok (some s) ∧ AV.Rx.GnfaGlue.compile s = some L ∧
+        ∀ w, w ∈ L ↔ d.accepts w = true
+
+/-- The one-state DFA over `{c}` with a `c`-loop on its (initial, final) state: language `c*`. -/
+def loopDFA (c : Char) : AV.DFA Nat Char :=
+  { states := [0], syms := [c], trans := [(0, [(c, 0)])], init := 0, finals := [0],
+    allowPartial := false }
+
+/-- What `from_dfa` builds from it, if the validating constructor lets it through. -/
+def loopG (c : Char) : GNFA Nat Str :=
+  { states := [0, 1, 2], syms := [c],
+    trans := [(0, [(0, some [c]), (2, some [])]), (1, [(0, some []), (2, none)])],
+    init := 1, final := 2 }
+
+theorem loop_fromDFA (c : Char) : fromDFA simpleRxValid id (loopDFA c) =
+    match (loopG c).validateStr simpleRxValid with
+    | .ok _ => .ok (loopG c)
+    | .error e => .error e := rfl
+
+theorem loop_toRegex (c : Char) : toRegex (loopG c) (fun _ l => l) = .ok (some [c, '*']) := rfl
+
+theorem loop_g {c : Char} {g : GNFA Nat Str} (hg : fromDFA simpleRxValid id (loopDFA c) = .ok g) :
+    g = loopG c := by
+  rw [loop_fromDFA] at hg
+  split at hg
+  · exact (Except.ok.inj hg).symm
+  · cases hg
+
+theorem refute_ctor {c : Char} {e : Exn}
+    (h : (loopG c).validateStr simpleRxValid = .error e) : ¬ C12_holds_for (loopDFA c) := by
+  rintro ⟨g, hg, -⟩
+  rw [loop_fromDFA, h] at hg
+  cases hg
+
+theorem refute_parse {c : Char} {e : Exn} (h : AV.Rx.fromRegex [c, '*'] none = .error e) :
+    ¬ C12_holds_for (loopDFA c) := by
+  rintro ⟨g, hg, hall⟩
+  obtain ⟨s, L, hs, hc, -⟩ := hall (fun _ l => l) (fun _ _ _ => Iff.rfl)
+  rw [loop_g hg, loop_toRegex] at hs
+  cases hs
+  unfold AV.Rx.GnfaGlue.compile at hc
+  rw [h] at hc
+  cases hc
+
+theorem refute_word {c : Char}
+    (h : (AV.Rx.fromRegex [c, '*'] none).toOption.map (fun N => N.accepts [c]) = some false) :
+    ¬ C12_holds_for (loopDFA c) := by
+  rintro ⟨g, hg, hall⟩
+  obtain ⟨s, L, hs, hc, hL⟩ := hall (fun _ l => l) (fun _ _ _ => Iff.rfl)
+  rw [loop_g hg, loop_toRegex] at hs
+  cases hs
+  unfold AV.Rx.GnfaGlue.compile at hc
+  cases hN : AV.Rx.fromRegex [c, '*'] none with
+  | error e => rw [hN] at hc; cases hc
+  | ok N =>
+    rw [hN] at hc h
+    have hL' : L = {w | N.accepts w = true} := (Option.some.inj hc).symm
+    subst hL'
+    have hacc : (loopDFA c).accepts [c] = true := by
+      simp [loopDFA, DFA.accepts, DFA.run, DFA.step?, DFA.row, DFA.row?, DFA.isFinal, alookup]
+    have : N.accepts [c] = true := (hL [c]).mpr hacc
+    simp [Except.toOption, this] at h
+
+
+theorem loop_space {c : Char} (hsp : pyIsSpace c = true) (h1 : c ≠ ' ') (h2 : c ≠ '\t') :
+    (loopG c).validateStr simpleRxValid = .error (.lib .lexerError) := by
+  have n1 : c ≠ '(' := by rintro rfl; revert hsp; decide
+  have n2 : c ≠ ')' := by rintro rfl; revert hsp; decide
+  have n3 : c ≠ '|' := by rintro rfl; revert hsp; decide
+  have n4 : c ≠ '&' := by rintro rfl; revert hsp; decide
+  have n5 : c ≠ '^' := by rintro rfl; revert hsp; decide
+  have n6 : c ≠ '*' := by rintro rfl; revert hsp; decide
+  have n7 : c ≠ '+' := by rintro rfl; revert hsp; decide
+  have n8 : c ≠ '?' := by rintro rfl; revert hsp; decide
+  have hlex : simpleRxValid [c] = .error (.lib .lexerError) := by
+    simp [simpleRxValid, lexSimple, n1, n2, n3, n4, n5, n6, n7, n8, h1, h2, hsp]
+  have hchk : strLabelCheck simpleRxValid [c] [c] = .error (.lib .lexerError) := by
+    simp [strLabelCheck, hlex]
+  simp [GNFA.validateStr, GNFA.validate, loopG, firstErr, GNFA.validateLabels, avals, hchk,
+    Res.andThen, guardE, ahas, alookup]
+
+
+theorem loop_valid (c : Char) : (loopDFA c).validate = .ok () := by
+  rw [DFA.validate_eq_ok]
+  refine ⟨?_, ?_, ?_, ?_, ?_, ?_⟩ <;> simp [loopDFA, akeys, avals]
+
+/-- **C12_isLit_boundary** — `IsLit` is exactly the boundary of the property: for the one-state
+DFA over `{c}` that accepts `c*` (valid, non-empty language, for EVERY character `c`), the
+end-to-end property — `from_dfa` succeeds and `to_regex`'s string compiles to exactly the source
+language — holds **iff** `c` is `IsLit` (not reserved, not white space). -/
+theorem C12_isLit_boundary (c : Char) : C12_holds_for (loopDFA c) ↔ IsLit c := by
+  constructor
+  · intro h
+    by_contra hl
+    have hcase : c ∈ AV.Gen.Regex.reservedCharacters ∨
+        (c ∉ AV.Gen.Regex.reservedCharacters ∧ pyIsSpace c = true) := by
+      by_cases hr : c ∈ AV.Gen.Regex.reservedCharacters
+      · exact Or.inl hr
+      · right
+        refine ⟨hr, ?_⟩
+        cases hsp : pyIsSpace c with
+        | true => rfl
+        | false => exact absurd ⟨hr, hsp⟩ hl
+    rcases hcase with hr | ⟨hr, hsp⟩
+    · simp only [AV.Gen.Regex.reservedCharacters, List.mem_cons, List.not_mem_nil, or_false] at hr
+      rcases hr with rfl | rfl | rfl | rfl | rfl | rfl | rfl | rfl | rfl | rfl | rfl | rfl | rfl
+      · exact refute_parse (e := .lib .invalidRegexError) rfl h
+      · exact refute_parse (e := .lib .invalidRegexError) rfl h
+      · exact refute_parse (e := .lib .invalidRegexError) rfl h
+      · exact refute_parse (e := .lib .invalidRegexError) rfl h
+      · exact refute_parse (e := .lib .invalidRegexError) rfl h
+      · exact refute_parse (e := .lib .invalidRegexError) rfl h
+      · exact refute_parse (e := .lib .invalidRegexError) rfl h
+      · exact refute_parse (e := .lib .invalidRegexError) rfl h
+      · exact refute_parse (e := .lib .invalidRegexError) rfl h
+      · exact refute_word (by decide) h
+      · exact refute_parse (e := .lib .invalidRegexError) rfl h
+      · exact refute_parse (e := .lib .invalidSymbolError) rfl h
+      · exact refute_parse (e := .lib .invalidSymbolError) rfl h
+    · have h1 : c ≠ ' ' := by
+        rintro rfl; exact hr (by decide)
+      have h2 : c ≠ '\t' := by
+        rintro rfl; exact hr (by decide)
+      exact refute_ctor (loop_space hsp h1 h2) h
+  · intro hl
+    exact (C12_to_regex_full id (fun _ _ h => h)).1 (loopDFA c) (loop_valid c)
+      (by simp [loopDFA, akeys]) (by simpa [loopDFA] using hl) ⟨[], rfl⟩
+
 end AV.Props.C12
